@@ -260,6 +260,15 @@ def eager_contraction_generic_to_tuple(red_op, bin_op, reduced_vars, *terms):
 
 @eager.register(Contraction, AssociativeOp, AssociativeOp, frozenset, tuple)
 def eager_contraction_generic_recursive(red_op, bin_op, reduced_vars, terms):
+    # Pushing reductions into individual terms is only sound in a semiring.
+    if (
+        reduced_vars
+        and red_op is not ops.null
+        and bin_op is not ops.null
+        and (red_op, bin_op) not in DISTRIBUTIVE_OPS
+    ):
+        return None
+
     # Count the number of terms in which each variable is reduced.
     counts = Counter()
     for term in terms:
